@@ -222,39 +222,46 @@ def work(unit):
                     break
             if too_many(findings):
                 break
-        # out-of-range coordinates: every component position x {-1, dim} x a stored in-range companion
-        if order >= 1 and all(d >= 1 for d in dims):
+        # out-of-range coordinates: every component position x {dim, dim+1, -1} x every in-range choice
+        # of the other components x every set of <= 2 in-range companions (so that the offending
+        # entry lands at the start, in the interior and at the end of the stored arrays)
+        if order >= 1 and all(d >= 1 for d in dims) and len(cells) <= opts["max_cells"]:
+            companions_pool = [[]] + [[c] for c in cells] + [list(p) for p in itertools.combinations(cells, 2)]
+            if order >= 3:
+                companions_pool = companions_pool[:: 3]
             for pos in range(order):
+                level = fmt.ordering.index(pos)
+                mode = fmt.modes[level].name
+                others = [range(dims[k]) if k != pos else [None] for k in range(order)]
                 for badv in (dims[pos], -1, dims[pos] + 1):
-                    c = [0] * order
-                    c[pos] = badv
-                    level = fmt.ordering.index(pos)
-                    mode = fmt.modes[level].name
-                    for companion in ([], [((0,) * order, 1.5)]):
-                        entries = companion + [(tuple(c), 2.5)]
-                        case = {"format": fmt_str(fmt), "dimensions": list(dims),
-                                "entries": [[list(cc), v] for cc, v in entries], "bad_component": pos,
-                                "level_mode": mode}
-                        for cname in ("from_dok", "from_aos", "from_soa"):
-                            stats["out-of-range probes"] += 1
-                            transitions += 1
-                            try:
-                                if cname == "from_dok":
-                                    t = Tensor.from_dok(dict(entries), dimensions=dims, format=fmt)
-                                elif cname == "from_aos":
-                                    t = Tensor.from_aos([e[0] for e in entries], [e[1] for e in entries], dimensions=dims, format=fmt)
-                                else:
-                                    t = Tensor.from_soa(tuple(zip(*[e[0] for e in entries], strict=True)), [e[1] for e in entries],
-                                                        dimensions=dims, format=fmt)
-                            except Exception:  # noqa: BLE001
-                                stats["out-of-range rejected"] += 1
-                                continue
-                            stats["out-of-range accepted"] += 1
-                            findings.append(_f("out-of-range-accepted",
-                                               f"{cname} accepted coordinate {tuple(c)} outside dimensions {dims} "
-                                               f"(component lands in a {mode} level); read-back: {t.to_dok()}",
-                                               {**case, "constructor": cname}, level_mode=mode,
-                                               negative=badv < 0))
+                    for rest in itertools.product(*others):
+                        c = tuple(badv if k == pos else rest[k] for k in range(order))
+                        for comp in companions_pool:
+                            entries = [(cc, 1.5 + k) for k, cc in enumerate(comp)] + [(c, 2.5)]
+                            case = {"format": fmt_str(fmt), "dimensions": list(dims),
+                                    "entries": [[list(cc), v] for cc, v in entries], "bad_component": pos,
+                                    "level_mode": mode}
+                            for cname in ("from_dok", "from_aos", "from_soa"):
+                                stats["out-of-range probes"] += 1
+                                transitions += 1
+                                try:
+                                    if cname == "from_dok":
+                                        t = Tensor.from_dok(dict(entries), dimensions=dims, format=fmt)
+                                    elif cname == "from_aos":
+                                        t = Tensor.from_aos([e[0] for e in entries], [e[1] for e in entries],
+                                                            dimensions=dims, format=fmt)
+                                    else:
+                                        t = Tensor.from_soa(tuple(zip(*[e[0] for e in entries], strict=True)),
+                                                            [e[1] for e in entries], dimensions=dims, format=fmt)
+                                except Exception:  # noqa: BLE001
+                                    stats["out-of-range rejected"] += 1
+                                    continue
+                                stats["out-of-range accepted"] += 1
+                                findings.append(_f("out-of-range-accepted",
+                                                   f"{cname} accepted coordinate {c} outside dimensions {dims} "
+                                                   f"(component lands in a {mode} level); read-back: {t.to_dok()}",
+                                                   {**case, "constructor": cname}, level_mode=mode,
+                                                   negative=badv < 0))
     return {"stats": dict(stats), "findings": cap_findings(findings), "samples": samples, "states": len(states),
             "transitions": transitions, "wall": time.time() - t0}
 
